@@ -54,7 +54,7 @@ func newLeaf(o *out, r *rng, u int, kind int) oref {
 		var pts []ipt
 		for len(pts) < n {
 			p := rp()
-			if n < 2 { // positions of a part that occupies no space stay in range (DESIGN, C11 corner)
+			if n < 2 && r.coin(0.5) { // half of the parts that occupy no space stay in range (known finding D21 otherwise)
 				p = ipt{r.rangeI(-2, 12), r.rangeI(-2, 12)}
 			}
 			pts = append(pts, p)
@@ -106,7 +106,7 @@ func newColl(o *out, r *rng, u int, depth int) oref {
 			}
 			var pts []ipt
 			for k := 0; k < m; k++ {
-				if m < 2 {
+				if m < 2 && r.coin(0.5) {
 					pts = append(pts, ipt{r.rangeI(-2, 12), r.rangeI(-2, 12)})
 				} else {
 					pts = append(pts, ipt{r.rangeI(-2, 12) * u, r.rangeI(-2, 12) * u})
@@ -170,11 +170,59 @@ func newAny(o *out, r *rng, u int) oref {
 	return c
 }
 
+// a geometry-level shape (gen.go) as a leaf object
+func newShapeObj(o *out, r *rng, s shape) oref {
+	id := o.newID("O")
+	cfg := idxConfigs[r.intn(len(idxConfigs))]
+	switch s.kind {
+	case "pt":
+		o.op("onew %s point %d %d", id, s.rings[0][0].x, s.rings[0][0].y)
+		return oref{id, "Point"}
+	case "rect":
+		a, b := s.rings[0][0], s.rings[0][1]
+		o.op("onew %s rect %d %d %d %d", id, a.x, a.y, b.x, b.y)
+		return oref{id, "Rect"}
+	case "line":
+		o.op("onew %s line %d %d %s", id, cfg[0], cfg[1], ptsStr(s.rings[0]))
+		return oref{id, "LineString"}
+	default:
+		parts := []string{strconv.Itoa(len(s.rings))}
+		for _, ring := range s.rings {
+			parts = append(parts, ptsStr(ring))
+		}
+		o.op("onew %s polygon %d %d %s", id, cfg[0], cfg[1], strings.Join(parts, " "))
+		return oref{id, "Polygon"}
+	}
+}
+
 func genC09(o *out, r *rng, thorough bool) {
 	n := 1200
 	if thorough {
 		n = 30000
 	}
+	// contact configurations: a shape and a probe built from its vertices, edge midpoints and
+	// quarter points (the geometry-level generators of C02/C03), as objects, sometimes wrapped
+	for i := 0; i < n/2; i++ {
+		u := 16
+		sa := genPoly(r, u)
+		if r.coin(0.35) {
+			sa = genProbe(r, sa, u)
+		}
+		sb := genProbe(r, sa, u)
+		a, b := newShapeObj(o, r, sa), newShapeObj(o, r, sb)
+		if r.coin(0.15) {
+			f := o.newID("O")
+			o.op("onew %s feature %s - invalid", f, b.id)
+			b = oref{f, "Feature"}
+		}
+		o.op("opred %s %s", a.id, b.id)
+		o.op("xalgebra %s %s", a.id, b.id)
+		o.op("xalgebra %s %s", b.id, a.id)
+		if i%60 == 59 {
+			o.op("oreset")
+		}
+	}
+	o.op("oreset")
 	for i := 0; i < n; i++ {
 		u := 16
 		a, b := newAny(o, r, u), newAny(o, r, u)
@@ -252,6 +300,7 @@ func genC10(o *out, r *rng, thorough bool) {
 			o.op("oreset")
 		}
 	}
+	genC10Empties(o, r, n/6)
 	// the same collection text under different child-index thresholds
 	for i := 0; i < n/3; i++ {
 		text, fl := genWFColl(r)
@@ -289,6 +338,71 @@ func genC10(o *out, r *rng, thorough bool) {
 			o.op("oreset")
 		}
 	}
+}
+
+// collections with empty children in front of / between the non-empty ones, under child-index
+// thresholds that are really reached (2, 3, 4): the index must hold exactly the non-empty children
+func genC10Empties(o *out, r *rng, n int) {
+	for i := 0; i < n; i++ {
+		k := r.rangeI(3, 8)
+		var cs []string
+		var pts []ipt
+		for j := 0; j < k; j++ {
+			if r.coin(0.35) {
+				cs = append(cs, []string{`{"type":"GeometryCollection","geometries":[]}`, `{"type":"MultiPoint","coordinates":[]}`, `{"type":"MultiLineString","coordinates":[]}`, `{"type":"MultiPolygon","coordinates":[]}`}[r.intn(4)])
+				continue
+			}
+			p := ipt{r.rangeI(0, 6), r.rangeI(0, 6)}
+			pts = append(pts, p)
+			if r.coin(0.7) {
+				cs = append(cs, fmt.Sprintf(`{"type":"Point","coordinates":[%d,%d]}`, p.x, p.y))
+			} else {
+				cs = append(cs, fmt.Sprintf(`{"type":"LineString","coordinates":[[%d,%d],[%d,%d]]}`, p.x, p.y, p.x+1, p.y))
+			}
+		}
+		var text string
+		if r.coin(0.5) {
+			text = `{"type":"GeometryCollection","geometries":[` + strings.Join(cs, ",") + `]}`
+		} else {
+			var fs []string
+			for _, c := range cs {
+				fs = append(fs, `{"type":"Feature","geometry":`+c+`,"properties":{}}`)
+			}
+			text = `{"type":"FeatureCollection","features":[` + strings.Join(fs, ",") + `]}`
+		}
+		var ids []string
+		for _, ic := range []int{0, 1, 2, 3, 4, 64} {
+			id := o.newID("C")
+			emitParse(o, "oparsewf", id, optsStr(ic, 64, 2, false, false, false, false), text)
+			ids = append(ids, id)
+			o.op("ochildren %s", id)
+			o.op("oindexed %s", id)
+		}
+		for _, p := range pts {
+			x := o.newID("O")
+			o.op("onew %s point %d %d", x, p.x*16, p.y*16)
+			g := o.newGroup()
+			for _, id := range ids {
+				o.op("same %d opred %s %s", g, id, x)
+			}
+		}
+		g := o.newGroup()
+		for _, id := range ids {
+			o.op("same %d osearch %s ninf ninf pinf pinf 0", g, id)
+		}
+		g = o.newGroup()
+		for _, id := range ids {
+			o.op("same %d osearch %s 0 0 48 48 0", g, id)
+		}
+		g = o.newGroup()
+		for _, id := range ids {
+			o.op("same %d oattrs %s", g, id)
+		}
+		if i%20 == 19 {
+			o.op("oreset")
+		}
+	}
+	o.op("oreset")
 }
 
 // a collection document in regime E
@@ -348,6 +462,31 @@ func genC11(o *out, r *rng, thorough bool) {
 			pts = append(pts, pts[0])
 		}
 		id := o.newID("O")
+		if i%5 == 4 {
+			// series that occupy no space (a line of < 2 positions, a ring of < 3) still report
+			// their out-of-range positions; also as a hole of a proper polygon
+			m := r.rangeI(0, 2)
+			dpts := []ipt{}
+			for j := 0; j < m; j++ {
+				dpts = append(dpts, ipt{r.rangeI(-170, 170) * 16, r.rangeI(-80, 80) * 16})
+			}
+			if m > 0 && r.coin(0.7) {
+				dpts[r.intn(m)] = bad
+			}
+			switch r.intn(3) {
+			case 0:
+				if m == 2 {
+					dpts = dpts[:1]
+				}
+				o.op("onew %s line 0 0 %s", id, ptsStr(dpts))
+			case 1:
+				o.op("onew %s polygon 0 0 1 %s", id, ptsStr(dpts))
+			default:
+				o.op("onew %s polygon 0 0 2 %s %s", id, ptsStr(rectRing(0, 0, 160, 160)), ptsStr(dpts))
+			}
+			o.op("oattrs %s", id)
+			continue
+		}
 		if r.coin(0.6) {
 			o.op("onew %s polygon 0 0 1 %s", id, ptsStr(pts))
 		} else {
@@ -414,10 +553,28 @@ func genC08(o *out, r *rng, thorough bool) {
 			text = fmt.Sprintf(`{"type":"Polygon","coordinates":[[[0,%d],[%d,%d],[%d,%d],[-0,%d],[0,%d]]]}`, -h, w, -h, w, h, h, -h)
 			fl = docFlags{planar: true}
 		}
+		d20 := false
+		var d20dx, d20dy, d20k int
+		if i%97 == 57 {
+			// a polygon whose ring touches itself, with enough segments for the R-tree to split
+			// (known finding D20: inclusive contains depends on the index kind)
+			d20 = true
+			d20dx, d20dy, d20k = r.rangeI(-50, 50), r.rangeI(-20, 20), r.rangeI(1, 3)
+			base := [][2]int{{0, 0}, {8, 0}, {16, 0}, {24, 0}, {64, 0}, {64, 64}, {62, 58}, {60, 52}, {58, 46}, {54, 34}, {48, 16}, {32, 0}, {28, 8}, {24, 16}, {20, 24}, {12, 40}, {0, 64}, {0, 0}}
+			var ps []string
+			for _, p := range base {
+				ps = append(ps, fmt.Sprintf("[%d,%d]", p[0]*d20k+d20dx, p[1]*d20k+d20dy))
+			}
+			text = `{"type":"Polygon","coordinates":[[` + strings.Join(ps, ",") + `]]}`
+			fl = docFlags{planar: true}
+		}
 		np := strings.Count(text, "[")
 		type variant struct{ opts string }
 		var vs []string
 		vs = append(vs, defaultOptsS)
+		if d20 {
+			vs = append(vs, optsStr(64, 1, 1, false, false, false, false), optsStr(64, 0, 0, false, false, false, false))
+		}
 		for _, ig := range []int{0, 1, np, np + 1} {
 			for _, k := range []int{1, 2} {
 				if r.coin(0.5) {
@@ -443,6 +600,11 @@ func genC08(o *out, r *rng, thorough bool) {
 			}
 			for k := 0; k < 3; k++ {
 				x := newAny(o, r, 16)
+				if d20 && k == 0 {
+					xid := o.newID("O")
+					o.op("onew %s line 0 0 2 %d %d %d %d", xid, 16*(32*d20k+d20dx), 16*d20dy, 16*(64*d20k+d20dx), 16*(48*d20k+d20dy))
+					x = oref{xid, "LineString"}
+				}
 				g = o.newGroup()
 				for _, id := range ids {
 					o.op("same %d opred %s %s", g, id, x.id)
@@ -456,6 +618,38 @@ func genC08(o *out, r *rng, thorough bool) {
 		if r.coin(0.5) {
 			bad := strings.Replace(text, "[", "[2000,95,", 1)
 			emitParse(o, "oparserv", o.newID("V"), optsStr(64, 64, 2, true, r.coin(0.5), false, r.coin(0.5)), bad)
+		}
+		// points with a null (= NaN) or out-of-range ordinate at any place of a MultiPoint, bare or nested
+		if i%4 == 1 {
+			k := r.rangeI(1, 5)
+			badAt := r.intn(k + 1) // == k: none
+			var ps []string
+			for j := 0; j < k; j++ {
+				x, y := strconv.Itoa(r.rangeI(-170, 170)), strconv.Itoa(r.rangeI(-80, 80))
+				if j == badAt {
+					switch r.intn(4) {
+					case 0:
+						x = "null"
+					case 1:
+						y = "null"
+					case 2:
+						x = "181"
+					default:
+						y = "-90.5"
+					}
+				}
+				ps = append(ps, "["+x+","+y+"]")
+			}
+			mp := `{"type":"MultiPoint","coordinates":[` + strings.Join(ps, ",") + `]}`
+			switch r.intn(4) {
+			case 1:
+				mp = `{"type":"Feature","geometry":` + mp + `,"properties":null}`
+			case 2:
+				mp = `{"type":"GeometryCollection","geometries":[{"type":"Point","coordinates":[1,1]},` + mp + `]}`
+			case 3:
+				mp = `{"type":"FeatureCollection","features":[{"type":"Feature","geometry":` + mp + `,"properties":{}}]}`
+			}
+			emitParse(o, "oparserv", o.newID("V"), optsStr(r.pick([]int{0, 1, 64}), 64, 2, true, r.coin(0.3), false, false), mp)
 		}
 		if i%30 == 29 {
 			o.op("oreset")
@@ -577,6 +771,51 @@ func genC05obj(o *out, r *rng, thorough bool) {
 		n = 40000
 	}
 	genLineWalks(o, r, n/3)
+	// documents with ordinates beyond the binary64 range (+-Inf after Parse) and every predicate among them
+	for i := 0; i < n/100+5; i++ {
+		o.op("xinf %d", r.next()%1000000)
+	}
+	// layouts that stress the index builders: every segment straddles the centre lines of the
+	// bounding box (zigzags, spokes), all points equal, all segments collinear; built by the
+	// constructors with each index kind, at and around the default threshold
+	for i := 0; i < n/60+4; i++ {
+		m := r.pick([]int{33, 34, 64, 65, 100, 200})
+		var pts []ipt
+		switch i % 4 {
+		case 0: // horizontal zigzag
+			for k := 0; k < m; k++ {
+				pts = append(pts, ipt{(k % 2) * 160, k * 16})
+			}
+		case 1: // spokes through the centre
+			for k := 0; k < m; k++ {
+				if k%2 == 0 {
+					pts = append(pts, ipt{-160 - k, -160 + k})
+				} else {
+					pts = append(pts, ipt{160 + k, 160 - k})
+				}
+			}
+		case 2: // all points equal
+			for k := 0; k < m; k++ {
+				pts = append(pts, ipt{16, 16})
+			}
+		default: // diagonal zigzag
+			for k := 0; k < m; k++ {
+				pts = append(pts, ipt{(k%2)*320 - 160, (1-k%2)*320 - 160 + k})
+			}
+		}
+		for _, cfg := range [][2]int{{2, 64}, {1, 64}, {2, 1}, {1, 1}} {
+			id := o.newID("O")
+			if i%2 == 0 {
+				o.op("onew %s line %d %d %s", id, cfg[0], cfg[1], ptsStr(pts))
+			} else {
+				o.op("onew %s polygon %d %d 1 %s", id, cfg[0], cfg[1], ptsStr(closeRing(pts)))
+			}
+			b := newAny(o, r, 16)
+			o.op("opred %s %s", id, b.id)
+			o.op("xmethods %s %s", id, b.id)
+		}
+		o.op("oreset")
+	}
 	for i := 0; i < n; i++ {
 		a, b := newAny(o, r, 16), newAny(o, r, 16)
 		o.op("opred %s %s", a.id, b.id)
